@@ -12,7 +12,8 @@ from vlib.refmodel import fock, marginal_distribution
 PROPERTY = "C05"
 RULE = ("Generated circuits with 0-3 heralds (0-2 photons, via nested additions and external heralds with "
         "in != out modes) and optional loss; 1-3 inputs of equal photon number 0-3; post-selection None / "
-        "PostSelection with 1-3 rules / Python predicate; generated expected mapping; both detector modes of "
+        "PostSelection with 1-3 rules (also several rules on one mode with multi_rules, also handed over empty and "
+        "completed afterwards) / Python predicate (bare or wrapped in PostSelectionFunction); generated expected mapping; both detector modes of "
         "the QuickSampler. Oracle: exact distribution from own permanent on the real U_full (loss traced out), "
         "conditioned/renormalised as C05 states, plus differential relations between the four objects. "
         "Non-trivial = (a herald carrying a photon or a loss element) and a post-selection that accepts and "
